@@ -12,7 +12,7 @@ import (
 	"pgregory.net/rapid"
 )
 
-var members = append([]string{"chain", "chain"}, kit.AllNames...)
+var members = append([]string{"chain", "chain", "jitterbuffer"}, kit.AllNames...)
 
 // genRTPIn draws incoming RTP byte strings: valid packets, truncations at every boundary, bit flips, raw bytes.
 func genRTPIn(t *rapid.T) []byte {
@@ -191,10 +191,22 @@ func genCase(t *rapid.T) (*Case, []string) {
 	if c.Member == "jitterbuffer" && rapid.Bool().Draw(t, "longHistory") {
 		c.History = rapid.IntRange(50, 70).Draw(t, "jbHistory") // enough for the buffer to start emitting
 	}
+	if rapid.IntRange(0, 3).Draw(t, "shortBuf") == 0 {
+		// the caller reads with a short buffer (the datagram is truncated, a buffering member has larger packets queued)
+		c.ReadBuf = 1 + rapid.SampledFrom([]int{0, 1, 4, 11, 12, 13, 16, 20, 23, 24, 40, 64, 200}).Draw(t, "readBuf")
+		classes = append(classes, "short-read-buffer")
+	}
 	switch rapid.IntRange(0, 2).Draw(t, "kind") {
 	case 0:
 		c.Kind = "rtp-in"
 		for i, n := 0, rapid.IntRange(1, 4).Draw(t, "n"); i < n; i++ {
+			if c.ReadBuf > 0 && rapid.Bool().Draw(t, "plainSmall") {
+				// a well-formed header-only packet: what matters in this case is the caller's short buffer, not the bytes
+				b, _ := (&rtp.Packet{Header: rtp.Header{Version: 2, SSRC: 0x7001, PayloadType: 96, SequenceNumber: uint16(1000 + i), Timestamp: 1}}).Marshal() //nolint:gosec
+				c.Inputs = append(c.Inputs, b)
+
+				continue
+			}
 			c.Inputs = append(c.Inputs, genRTPIn(t))
 		}
 	case 1:
